@@ -97,7 +97,6 @@ package builder
 //@ func NewBuildClient
 //@   props C08
 //@   ensures every-client-is-a-new-object: isnew(r0)
-//@   ensures a-new-client-reports-idle: isIdle(r0)
 
 // The tracing decorator is the executor the worker thread talks to: it returns
 // only with the response the wrapped executor produced, i.e. after that
